@@ -34,7 +34,7 @@ type Contract struct {
 	Ensures  []*Clause
 	Modifies []*Clause
 	Loops    map[int]*LoopContract
-	Ghosts   []*Clause // ghost statements keyed by call site, see exec
+	Ghosts   []SpecParam // ghost parameters (universally quantified in the callee, bound by unique type match at call sites)
 	Line     int
 	Trusted  bool // contract assumed, body not verified
 }
@@ -245,7 +245,13 @@ func parseContractFile(path string) (*ContractFile, error) {
 				case "trusted":
 					c.Trusted = true
 					c.Attrs["trusted"] = strings.TrimSpace(rc.text)
-				case "requires", "ensures", "modifies", "ghost":
+				case "ghost":
+					ps, err := parseParams(rc.text)
+					if err != nil {
+						return nil, fmt.Errorf("%s:%d: %v", path, rc.line, err)
+					}
+					c.Ghosts = append(c.Ghosts, ps...)
+				case "requires", "ensures", "modifies":
 					if rc.kw == "modifies" {
 						for _, part := range splitTopComma(rc.text) {
 							cl, err := mkClause(part, rc.line)
@@ -265,8 +271,6 @@ func parseContractFile(path string) (*ContractFile, error) {
 						c.Requires = append(c.Requires, cl)
 					case "ensures":
 						c.Ensures = append(c.Ensures, cl)
-					case "ghost":
-						c.Ghosts = append(c.Ghosts, cl)
 					}
 				case "loop":
 					m := reLoop.FindStringSubmatch("loop " + rc.text)
